@@ -90,6 +90,7 @@ type Exec struct {
 	pending  []pendingAssert
 	snaps    []*snapNode
 	syncMaps map[*Value]*Map
+	fs       *fsState
 	uuids    []*Term
 	nuuid    int
 	onceDone map[*Value]bool
